@@ -724,6 +724,18 @@ def t1_tombstone_conservation(ctx):
                                     cond = True
         closed = not cond
         why = "every file with accounting is selected" if closed else "files are selected one by one by a per-file predicate (dead bytes / fragmentation / size)"
+    elif not ins and len(ext) == 1 and strip_generics(ext[0][1].get("callee") or "").endswith("Iterator::collect"):
+        # the set is collected from an iterator chain over the accounting map: a filter / filter_map
+        # stage is a per-file predicate, a bare map selects every file
+        src = arg_origin(sb, ext[0][1], 0)
+        over_stats = bool(origin_mentions(src, lambda x: x[0] == "call" and x[1] and x[1].startswith("dashmap::DashMap::iter") and x[2] and (access_path(x[2][0]) or "").endswith("stats")))
+        stages = {x[1].split("::")[-1] for x in origin_mentions(src, lambda x: x[0] == "call" and x[1] and x[1].startswith("std::iter::Iterator::"))}
+        if over_stats and stages <= {"filter", "filter_map", "map", "copied", "cloned", "flatten", "map_while", "take_while", "skip_while", "filter_map_ok"}:
+            cond = bool(stages & {"filter", "filter_map", "flatten", "map_while", "take_while", "skip_while"})
+            closed = not cond
+            why = "every file with accounting is selected" if closed else "files are selected one by one by a per-file predicate (dead bytes / fragmentation / size)"
+        else:
+            why = "selection collected from %s: idiom not in the table" % sorted(stages)
     else:
         why = "%d insert site(s), %d extending call(s): selection idiom not in the table" % (len(ins), len(ext))
     r.analysed = [b.path, sb.path] + [x.path for x in pd]
